@@ -480,6 +480,40 @@ func runC09(c *Ctx) {
 	}
 	rec(nil)
 	c.sum.Exhaustive = true
+	// answers survive decoding whoever wrote the token: an account token in the version-1 layout whose exports carry,
+	// next to their revocations, members only the version-2 layout knows (another implementation upgrading in place) -
+	// the export's list, the sibling export's list and the account's list come back entry by entry
+	{
+		opKp := newSigner("operator")
+		for _, extra := range []string{``, `"description":"d"`, `"advertise":true`, `"allow_trace":true`, `"response_threshold":5000000`, `"info_url":"https://example.com/i"`,
+			`"description":"d","advertise":true,"info_url":"https://example.com/i"`, `"account_token_position":0`} {
+			for _, revs := range []map[string]int64{{"a": 1}, {"*": 2, "a": 1, "b": 3}, {"*": 3}, {"UABC": 1700000000, "*": 5}} {
+				rj, _ := json.Marshal(revs)
+				ex := `{"name":"e","subject":"x.y","type":"stream","revocations":` + string(rj)
+				if extra != "" {
+					ex += "," + extra
+				}
+				ex += "}"
+				pj := `{"type":"account","iss":"` + opKp.pub + `","sub":"` + apub + `","iat":1700000000,"jti":"x","nats":{"exports":[` + ex +
+					`,{"name":"plain","subject":"x.z","type":"service","revocations":` + string(rj) + `}],"revocations":` + string(rj) + `}}`
+				ft := forge(hdrV1, pj, "v1", opKp)
+				d, err := jwt.DecodeAccountClaims(ft.Token)
+				c.sum.Evaluations++
+				c.sum.ImplChecks++
+				if err != nil || d == nil || len(d.Exports) != 2 {
+					continue // (whether such a token is accepted is not this property's business)
+				}
+				want := fmt.Sprint(sortedEntries(revs))
+				for name, l := range map[string]jwt.RevocationList{"the export with version-2 members": d.Exports[0].Revocations, "its plain sibling": d.Exports[1].Revocations, "the account": d.Revocations} {
+					if got := fmt.Sprint(sortedEntries(l)); got != want {
+						c.violation("C09: a revocation list does not survive decoding a version-1-layout account token: "+name+" holds "+got,
+							map[string]interface{}{"token": ft.Token, "payload_json": pj, "extra_members": extra, "list": name, "decoded": got, "written": want})
+					}
+				}
+				c.count("v1_layout_with_v2_members")
+			}
+		}
+	}
 	// random longer histories with encode/decode steps and a wider alphabet
 	nrand := 1500
 	if c.thorough() {
